@@ -175,4 +175,215 @@ theorem total_step (σ : Sieve.State) (sp : SpecState) (hinv : Sieve.RunInv σ s
     rw [if_pos hin]
   exact Option.some.inj (Sieve.step_correct .popcnt #[] σ sp _ _ _ hinv hspec).1
 
+/-! ### the invariants -/
+
+/-- ghost data of the segment `[L, L + n)` under the engine discipline: the slots `4 … lvl` hold `p 4 … p lvl` and are
+    crossed off; either the object is in its first segment and has no further slot (a new one may be created), or its
+    slot list is exactly `p 4 … p K` -/
+structure SegInv (Kmax : ℕ) (sp : SpecState) (L n lvl K prev seg : ℕ) : Prop where
+  inited : sp.inited = true
+  hL : sp.G.L = L
+  hn : sp.G.n = n
+  hprev : sp.prevStop = prev
+  n1 : 1 ≤ n
+  nle : n ≤ sp.segSize
+  full : n = seg → sp.segSize = seg
+  lvlK : lvl ≤ K
+  KK : K ≤ Kmax
+  hk : sp.G.k + 3 = lvl
+  hqs : sp.G.qs.take sp.G.k = plist lvl
+  slots : (sp.G.k = sp.G.qs.length ∧ sp.ws = 4 + sp.G.qs.length ∧ sp.G.L = sp.st) ∨ sp.G.qs = plist K
+
+/-- `Seg` of the concrete sieve -/
+def SegC (Kmax : ℕ) (s : Sieve.State) (L n lvl K prev seg : ℕ) : Prop :=
+  ∃ sp, Sieve.RunInv s sp ∧ SegInv Kmax sp L n lvl K prev seg
+
+/-- `Ready` of the concrete sieve: fresh object (any slot `≤ Kmax` can be created in the first segment), or the
+    segment before `L` is finished with the levels `4 … K` crossed off -/
+def ReadyC (Kmax : ℕ) (s : Sieve.State) (L K seg : ℕ) : Prop :=
+  K ≤ Kmax ∧ ∃ sp, Sieve.RunInv s sp ∧ sp.segSize = seg ∧
+    ((sp.inited = false ∧ sp.G.L = L ∧ sp.st = L ∧ sp.ws = 4) ∨
+     (sp.inited = true ∧ sp.G.L + seg = L ∧ sp.G.k + 3 = K ∧ sp.G.qs.take sp.G.k = plist K))
+
+/-- admissible constructor arguments (every LoadBalancerS2 work item: `low` a multiple of 240, `segment_size` a positive
+    multiple of 240; the array has fewer than 2^29 bytes) -/
+def SegOKC (low seg : ℕ) : Prop := 30 ∣ low ∧ 240 ∣ seg ∧ 0 < seg ∧ seg / 30 * 8 < 2 ^ 32
+
+section
+variable (primes : Array ℕ) (Kmax : ℕ) (hp : ∀ i, 4 ≤ i → i ≤ Kmax → primes.getD i 0 = Spec.p i)
+  (h32 : Spec.p Kmax < 2 ^ 32)
+include hp
+
+theorem preList_eq {c : ℕ} (hc : c ≤ Kmax) : Sieve.preList primes c = plist c := by
+  unfold Sieve.preList plist
+  have e : c + 1 - 4 = c - 3 := by omega
+  rw [e]
+  apply List.map_congr_left
+  intro j hj
+  rw [List.mem_range] at hj
+  exact hp (4 + j) (by omega) (by omega)
+
+omit hp
+include h32
+
+theorem p_ok {i : ℕ} (h4 : 4 ≤ i) (hi : i ≤ Kmax) : Nat.gcd (Spec.p i) 30 = 1 ∧ Spec.p i < Sieve.M32 := by
+  refine ⟨p_coprime30 h4, ?_⟩
+  have := Spec.p_le_p hi
+  show _ < 2 ^ 32
+  omega
+
+theorem plist_ok {c : ℕ} (hc : c ≤ Kmax) : ∀ q ∈ plist c, Nat.gcd q 30 = 1 ∧ q < Sieve.M32 := by
+  intro q hq
+  obtain ⟨i, h1, h2, rfl⟩ := mem_plist.mp hq
+  exact p_ok Kmax h32 h1 (by omega)
+
+end
+
+theorem create_ready_c (cfg : Sieve.Cfg) (Kmax low seg : ℕ) (h : SegOKC low seg) :
+    ReadyC Kmax (Sieve.create cfg low seg) low Kmax seg := by
+  obtain ⟨h1, h2, h3, h4⟩ := h
+  have hal := alignSegmentSize_of_dvd h2 h3
+  refine ⟨le_rfl, Sieve.specInit low seg, runInv_create cfg low seg h1 (by rw [hal]; exact h4), hal,
+    Or.inl ⟨rfl, rfl, rfl, rfl⟩⟩
+
+theorem pre_seg_c (cfg : Sieve.Cfg) (primes : Array ℕ) (Kmax : ℕ)
+    (hp : ∀ i, 4 ≤ i → i ≤ Kmax → primes.getD i 0 = Spec.p i) (h32 : Spec.p Kmax < 2 ^ 32)
+    (s : Sieve.State) (L K seg c n : ℕ) (hr : ReadyC Kmax s L K seg) (hc3 : 3 ≤ c) (hcK : c ≤ K) (hn1 : 1 ≤ n)
+    (hns : n ≤ seg) : SegC Kmax (Sieve.preSieve cfg s primes c (L + n - L)) L n c K 0 seg := by
+  obtain ⟨hK, sp, hinv, hseg, hcase⟩ := hr
+  have hpl : Sieve.preList primes c = plist c := preList_eq primes Kmax hp (by omega)
+  have hsegle : n ≤ (if n < sp.segSize then Sieve.alignSegmentSize n else sp.segSize) := by
+    split
+    · exact le_alignSegmentSize n
+    · omega
+  have hfull : n = seg → (if n < sp.segSize then Sieve.alignSegmentSize n else sp.segSize) = seg := by
+    intro e; rw [if_neg (by omega)]; exact hseg
+  rcases hcase with ⟨hin, hL, hst, hws⟩ | ⟨hin, hL, hk, hqs⟩
+  · obtain ⟨_, hk0, hqs0⟩ := hinv.pre hin
+    have htake : sp.G.qs.take sp.G.k = [] := by rw [hqs0]; exact List.take_nil
+    obtain ⟨a1, a2, a3⟩ := avail_new (plist c) 4 L ⟨L, n, [], 0⟩ rfl rfl rfl (plist_ok Kmax h32 (by omega))
+    have a2' : (⟨L, n, [], 0⟩ : Ghost).crossedAll (plist c) = ⟨L, n, plist c, c - 3⟩ := by
+      rw [a2]; simp only [List.nil_append, Nat.zero_add, plist_length]
+    have hrun := pre_step cfg primes s sp c L n hinv hn1 (by omega) (by rw [hin]; exact hL)
+      (by rw [htake, hws, hst, hpl]; exact a1)
+    rw [htake, hpl, a2', hws, a3] at hrun
+    refine ⟨_, hrun, ?_⟩
+    exact
+      { inited := rfl, hL := rfl, hn := rfl, hprev := rfl, n1 := hn1, nle := hsegle, full := hfull, lvlK := hcK,
+        KK := hK, hk := by show c - 3 + 3 = c; omega
+        hqs := by
+          show List.take (c - 3) (plist c) = plist c
+          exact List.take_of_length_le (by rw [plist_length])
+        slots := Or.inl ⟨by show c - 3 = (plist c).length; rw [plist_length],
+          by show 4 + (plist c).length = 4 + (plist c).length; rfl, hst.symm⟩ }
+  · obtain ⟨a1, a2, a3⟩ := avail_old (plist c) sp.ws sp.st ⟨L, n, plist K, 0⟩
+      (by show 0 + (plist c).length ≤ (plist K).length; rw [plist_length, plist_length]; omega)
+      (by
+        intro j hj
+        rw [plist_length] at hj
+        show (plist K).getD (0 + j) 0 = _
+        rw [Nat.zero_add, plist_getD (by omega), plist_getD hj])
+    have a2' : (⟨L, n, plist K, 0⟩ : Ghost).crossedAll (plist c) = ⟨L, n, plist K, c - 3⟩ := by
+      rw [a2]; simp only [Nat.zero_add, plist_length]
+    have hrun := pre_step cfg primes s sp c L n hinv hn1 (by omega)
+      (by rw [hin, if_pos rfl, hseg]; exact hL) (by rw [hqs, hpl]; exact a1)
+    rw [hqs, hpl, a2', a3] at hrun
+    refine ⟨_, hrun, ?_⟩
+    exact
+      { inited := rfl, hL := rfl, hn := rfl, hprev := rfl, n1 := hn1, nle := hsegle, full := hfull, lvlK := hcK,
+        KK := hK, hk := by show c - 3 + 3 = c; omega
+        hqs := by
+          show List.take (c - 3) (plist K) = plist c
+          exact plist_take hcK
+        slots := Or.inr rfl }
+
+theorem count_c (Kmax : ℕ) (f : Sieve.StopFn) (s : Sieve.State) (L n lvl K prev seg stop : ℕ)
+    (h : SegC Kmax s L n lvl K prev seg) (h1 : prev ≤ stop) (h2 : stop < n) :
+    (Sieve.countStop f s stop).2 = cnt L lvl stop ∧ SegC Kmax (Sieve.countStop f s stop).1 L n lvl K stop seg := by
+  obtain ⟨sp, hinv, hs⟩ := h
+  obtain ⟨c1, c2⟩ := count_step f s sp stop hinv hs.inited (by rw [hs.hprev]; exact h1)
+    (lt_of_lt_of_le h2 hs.nle)
+  constructor
+  · rw [c1, hs.hL, hs.hn, hs.hqs]
+    exact specCount_eq_cnt (by have := hs.hk; omega) L n stop h2
+  · exact ⟨_, c2, { hs with hprev := rfl }⟩
+
+theorem total_c (Kmax : ℕ) (s : Sieve.State) (L n lvl K prev seg : ℕ) (h : SegC Kmax s L n lvl K prev seg) :
+    s.totalCount = cnt L lvl (n - 1) := by
+  obtain ⟨sp, hinv, hs⟩ := h
+  rw [total_step s sp hinv hs.inited, hs.hL, hs.hn, hs.hqs]
+  exact specCount_total (by have := hs.hk; omega) L n sp.segSize hs.n1 hs.nle
+
+theorem cross_seg_c (Kmax : ℕ) (h32 : Spec.p Kmax < 2 ^ 32) (s : Sieve.State) (L n lvl K prev seg : ℕ)
+    (h : SegC Kmax s L n lvl K prev seg) (hlK : lvl + 1 ≤ K) :
+    SegC Kmax (Sieve.crossOffCount s (Spec.p (lvl + 1)) (lvl + 1)) L n (lvl + 1) K 0 seg := by
+  obtain ⟨sp, hinv, hs⟩ := h
+  have hk := hs.hk
+  have hKK := hs.KK
+  have e : 4 + sp.G.k = lvl + 1 := by omega
+  rcases hs.slots with ⟨s1, s2, s3⟩ | hB
+  · have hnot : ¬ sp.G.k < sp.G.qs.length := by omega
+    have hav : Sieve.AvailP sp.ws sp.st sp.G (Spec.p (lvl + 1)) :=
+      Or.inr ⟨s1, s2, s3, p_ok Kmax h32 (by omega) (by omega)⟩
+    have hrun := cross_step s sp (Spec.p (lvl + 1)) hinv hs.inited hav
+    have hcr : sp.G.crossed (Spec.p (lvl + 1)) = ⟨sp.G.L, sp.G.n, plist (lvl + 1), sp.G.k + 1⟩ := by
+      unfold Ghost.crossed
+      rw [if_neg hnot, plist_succ (by omega), ← hs.hqs, List.take_of_length_le (by omega)]
+    rw [hcr, if_neg hnot, e] at hrun
+    refine ⟨_, hrun, ?_⟩
+    exact
+      { inited := hs.inited, hL := hs.hL, hn := hs.hn, hprev := rfl, n1 := hs.n1, nle := hs.nle, full := hs.full,
+        lvlK := hlK, KK := hs.KK, hk := by show sp.G.k + 1 + 3 = lvl + 1; omega
+        hqs := by
+          show List.take (sp.G.k + 1) (plist (lvl + 1)) = plist (lvl + 1)
+          exact List.take_of_length_le (by rw [plist_length]; omega)
+        slots := Or.inl ⟨by show sp.G.k + 1 = (plist (lvl + 1)).length; rw [plist_length]; omega,
+          by show sp.ws + 1 = 4 + (plist (lvl + 1)).length; rw [plist_length]; omega, s3⟩ }
+  · have hlen : sp.G.qs.length = K - 3 := by rw [hB, plist_length]
+    have hlt : sp.G.k < sp.G.qs.length := by omega
+    have hav : Sieve.AvailP sp.ws sp.st sp.G (Spec.p (lvl + 1)) := by
+      refine Or.inl ⟨hlt, ?_⟩
+      rw [hB, plist_getD (by omega), e]
+    have hrun := cross_step s sp (Spec.p (lvl + 1)) hinv hs.inited hav
+    have hcr : sp.G.crossed (Spec.p (lvl + 1)) = ⟨sp.G.L, sp.G.n, plist K, sp.G.k + 1⟩ := by
+      unfold Ghost.crossed
+      rw [if_pos hlt, hB]
+    rw [hcr, if_pos hlt, e] at hrun
+    refine ⟨_, hrun, ?_⟩
+    exact
+      { inited := hs.inited, hL := hs.hL, hn := hs.hn, hprev := rfl, n1 := hs.n1, nle := hs.nle, full := hs.full,
+        lvlK := hlK, KK := hs.KK, hk := by show sp.G.k + 1 + 3 = lvl + 1; omega
+        hqs := by
+          show List.take (sp.G.k + 1) (plist K) = plist (lvl + 1)
+          have : sp.G.k + 1 = lvl + 1 - 3 := by omega
+          rw [this]; exact plist_take hlK
+        slots := Or.inr rfl }
+
+theorem next_ready_c (Kmax : ℕ) (s : Sieve.State) (L lvl K prev seg : ℕ) (h : SegC Kmax s L seg lvl K prev seg) :
+    ReadyC Kmax s (L + seg) lvl seg := by
+  obtain ⟨sp, hinv, hs⟩ := h
+  exact ⟨le_trans hs.lvlK hs.KK, sp, hinv, hs.full rfl, Or.inr ⟨hs.inited, by rw [hs.hL], hs.hk, hs.hqs⟩⟩
+
+/-- **The bit-exact model of `class Sieve` satisfies the counting contract of the hard-leaf engines**, for every CPU
+    configuration `cfg`, every inline `count(stop)` body `f`, and every `primes` array that holds the primes
+    `p 4 … p Kmax` (all `< 2^32`, the `uint32_t` entries of `wheel_`). -/
+noncomputable def concreteSieve_spec (cfg : Sieve.Cfg) (f : Sieve.StopFn) (primes : Array ℕ) (Kmax : ℕ)
+    (hp : ∀ i, 4 ≤ i → i ≤ Kmax → primes.getD i 0 = Spec.p i) (h32 : Spec.p Kmax < 2 ^ 32) :
+    SieveSpec (concreteSieve cfg f primes) Kmax where
+  segOK := SegOKC
+  Ready := ReadyC Kmax
+  Seg := SegC Kmax
+  create_ready := fun low seg _ h => create_ready_c cfg Kmax low seg h
+  pre_seg := fun s L K seg c n hr h3 hcK h1 hn => pre_seg_c cfg primes Kmax hp h32 s L K seg c n hr h3 hcK h1 hn
+  count_val := fun s L n lvl K prev seg stop h h1 h2 => (count_c Kmax f s L n lvl K prev seg stop h h1 h2).1
+  count_seg := fun s L n lvl K prev seg stop h h1 h2 => (count_c Kmax f s L n lvl K prev seg stop h h1 h2).2
+  total_val := fun s L n lvl K prev seg h => total_c Kmax s L n lvl K prev seg h
+  cross_seg := fun s L n lvl K prev seg h hl => cross_seg_c Kmax h32 s L n lvl K prev seg h hl
+  next_ready := fun s L lvl K prev seg h => next_ready_c Kmax s L lvl K prev seg h
+
+theorem concreteSieve_spec_segOK (cfg : Sieve.Cfg) (f : Sieve.StopFn) (primes : Array ℕ) (Kmax : ℕ)
+    (hp : ∀ i, 4 ≤ i → i ≤ Kmax → primes.getD i 0 = Spec.p i) (h32 : Spec.p Kmax < 2 ^ 32) (low seg : ℕ) :
+    (concreteSieve_spec cfg f primes Kmax hp h32).segOK low seg ↔
+      30 ∣ low ∧ 240 ∣ seg ∧ 0 < seg ∧ seg / 30 * 8 < 2 ^ 32 := Iff.rfl
+
 end Pc.Hard
